@@ -35,8 +35,11 @@ TRUSTED_BASE = [
     "trio 0.34 and trio.testing.MockClock(autojump_threshold=0) as the virtual clock driving the real coroutines",
     "harness/c09.py: recording pool / children / rules / slave controllers with virtual timestamps, environment driver, "
     "grouping of the log by virtual time, ast inspection of run()",
-    "model/Services.v + model/Controllers.v are hand-written; tied to the sources by the correspondence run and the "
-    "structural inspection only",
+    "model/Services.v + model/Controllers.v are hand-written; tied to the sources by the correspondence run, the "
+    "structural inspection, and by translation of the loop shapes (py2coq/units.py:gen_services, trusted, fail-closed; "
+    "gen/Gen_services.v regenerated on every run; kit/LoopIR.v turns a shape into a timeline and props/C09_tie.v proves that "
+    "the shapes of the current source give the model's timelines); what regulate / the rules / _shrink / _grow do inside one "
+    "step is the business of C08 / C15",
     "ideal arithmetic (exact Fractions / dyadic times)",
 ]
 ASSUMPTIONS = [
@@ -916,3 +919,17 @@ def distribution(results):                                  # noqa: F811
 
 def shrink(case, still_fails):                              # noqa: F811
     return case if case["svc"] == "fperiod" else _base["shrink"](case, still_fails)
+
+
+# ------------------------------------------------------------------ translator tie
+TIE_TARGETS = ["props/C09_tie.vo"]
+
+
+def regen(chk):
+    """regenerate gen/Gen_services.v from the six current run() methods"""
+    from py2coq import units
+    res = units.regen(common.REPO, os.path.join(common.COQDIR, "gen"), ["Gen_services.v"])
+    chk.coverage["translator"] = res
+    bad = [v for v in res.values() if v != "ok"]
+    if bad:
+        raise RuntimeError(bad[0])
